@@ -37,6 +37,9 @@ class Runtime:
         self.suspend = suspend
         self.foreign_ctx = 0
         self.type_calls = 0
+        self.default_calls = []  # paths at which a custom default resolver was called
+        self.default_type_calls = 0
+        self.engine_cfg = {}
         self.shared = None  # dict shared by the requests of a batch (one exception instance for all)
         self.override = None  # path -> raw value (C03: adversarial results)
         self.type_override = None  # path -> what the harness type resolver returns there (C03)
@@ -302,6 +305,10 @@ ENGINE_CONFIGS = [
     dict(lc=lc, pc=pc, ac=ac)
     for lc in (None, False) for pc in (None, False) for ac in (None, "sync")
 ]
+# ... each also built in a different (documented as equivalent) way, with or without custom defaults
+for _i, _c in enumerate(ENGINE_CONFIGS):
+    _c.update(build=["create_engine", "ctor", "cook_args", "split", "cook_twice"][_i % 5], dr=_i % 2 == 1, dtr=_i % 3 == 1,
+              ec=_i % 4 == 2, jl=_i % 4 == 3, sdl_file=_i == 5)
 
 
 MARK_SDL = "\ndirective @mark(k: Int!, deep: [[Int]]) on FIELD\n"
@@ -325,7 +332,56 @@ def register_mark(name):
     Directive("mark", schema_name=name)(Mark())
 
 
+def make_custom_default_resolver():
+    """Behaves exactly like the library's default resolver and records where it was called."""
+    async def custom_default_resolver(parent, args, ctx, info):
+        rt = _rt_of(ctx)
+        if rt is not None:
+            rt.default_calls.append(tuple(info.path.as_list()))
+        try:
+            return getattr(parent, info.field_name)
+        except AttributeError:
+            pass
+        try:
+            return parent[info.field_name]
+        except (KeyError, TypeError):
+            pass
+        return None
+
+    return custom_default_resolver
+
+
+def make_custom_default_type_resolver():
+    """Behaves exactly like the library's default type resolver and counts its calls."""
+    def custom_default_type_resolver(result, ctx, info, abstract_type):
+        rt = _rt_of(ctx)
+        if rt is not None:
+            rt.default_type_calls += 1
+        try:
+            return result["_typename"]
+        except (KeyError, TypeError):
+            pass
+        try:
+            return result._typename
+        except AttributeError:
+            pass
+        return result.__class__.__name__
+
+    return custom_default_type_resolver
+
+
+async def identity_error_coercer(exception, error):
+    return error
+
+
+BUILD_MODES = ["create_engine", "ctor", "cook_args", "split", "cook_twice"]
+
+
 async def cook(schema, name, cfg=None, sdl=None, pre=None, **extra):
+    """Register the schema model's actors under `name` and cook an engine.  cfg["build"] selects one
+    of the documented, equivalent ways of constructing an engine; cfg["dr"/"dtr"/"ec"/"jl"] install
+    custom defaults that behave like the built-in ones (and count their calls); cfg["sdl_file"]
+    supplies the SDL through a file."""
     cfg = cfg or {}
     if pre is not None:
         pre(name)
@@ -338,7 +394,63 @@ async def cook(schema, name, cfg=None, sdl=None, pre=None, **extra):
     if cfg.get("ac"):
         kw["custom_default_arguments_coercer"] = (
             sync_arguments_coercer if cfg["ac"] == "sync" else gather_arguments_coercer)
-    return await create_engine(sdl if sdl is not None else print_sdl(schema), schema_name=name, **kw)
+    if cfg.get("dr"):
+        kw.setdefault("custom_default_resolver", make_custom_default_resolver())
+    if cfg.get("dtr"):
+        kw.setdefault("custom_default_type_resolver", make_custom_default_type_resolver())
+    if cfg.get("ec"):
+        kw.setdefault("error_coercer", identity_error_coercer)
+    jl_calls = [0]
+    if cfg.get("jl"):
+        import json
+
+        def counting_json_loader(text):
+            jl_calls[0] += 1
+            return json.loads(text)
+        kw.setdefault("json_loader", counting_json_loader)
+    text = sdl if sdl is not None else print_sdl(schema)
+    tmp = None
+    if cfg.get("sdl_file") and isinstance(text, str):
+        import os
+        import tempfile
+        tmp = tempfile.mkdtemp(prefix="simv_sdl_")
+        path = os.path.join(tmp, "schema.graphql")
+        with open(path, "w", encoding="utf-8") as f:
+            f.write(text)
+        text = path
+        kw.setdefault("sdl_file_encoding", "utf-8")
+    build = cfg.get("build") or "create_engine"
+    try:
+        if build == "create_engine":
+            engine = await create_engine(text, schema_name=name, **kw)
+        else:
+            from tartiflette import Engine
+            if build in ("ctor", "cook_twice"):
+                engine = Engine(text, schema_name=name, **kw)
+                await engine.cook()
+            elif build == "cook_args":
+                engine = Engine()
+                await engine.cook(sdl=text, schema_name=name, **kw)
+            else:  # split: every other option to the constructor, the rest to cook()
+                keys = sorted(kw)
+                a = {k: kw[k] for k in keys[::2]}
+                b = {k: kw[k] for k in keys[1::2]}
+                engine = Engine(text, **a)
+                await engine.cook(schema_name=name, **b)
+            if build == "cook_twice":
+                # cooking a cooked engine is documented to do nothing
+                await engine.cook()
+                await engine.cook(sdl="type Query { cookedTwice: Int }", schema_name=name)
+    finally:
+        if tmp is not None:
+            import shutil
+            shutil.rmtree(tmp, ignore_errors=True)
+    try:
+        engine._simv_cfg = dict(cfg)
+        engine._simv_jl = jl_calls
+    except Exception:  # noqa: BLE001
+        pass
+    return engine
 
 
 def forget(name):
